@@ -763,7 +763,10 @@ impl C09 {
         let goals: Vec<String> = ops.iter().enumerate().map(|(i, o)| goal_text(o, i, guard)).collect();
         let q = format!("catch(( {}, fail ; true ), E, true).", goals.join(", "));
         let t0 = vh::ticks();
-        vh::set_tick_budget(t0 + 5_000_000);
+        // a history the model has no bound for (a modified clause/2 cursor may follow the clauses
+        // the history keeps adding, each addition rewriting a growing index) gets a small budget:
+        // only "no crash" is asserted for it anyway
+        vh::set_tick_budget(t0 + if model.ambiguous.is_some() { 400_000 } else { 5_000_000 });
         vh::set_p_trace(true);
         let r = m.run_with(&q, usize::MAX, |k| {
             if k == 0 && interrupt_at > 0 {
